@@ -49,6 +49,10 @@ type rebCase struct {
 	MinConns  uint        `json:"min_conns"`
 	Local     int         `json:"local"`
 	Others    []otherNode `json:"others"`
+	// not-a-number is a value both the flag parser and the YAML loader
+	// accept ("NaN", ".nan"); JSON cannot carry it, hence the flags
+	ThresholdNaN bool `json:"threshold_nan,omitempty"`
+	ShedRateNaN  bool `json:"shed_rate_nan,omitempty"`
 }
 
 func runRebCase(c rebCase) (closed int, sig, msg string) {
@@ -70,6 +74,12 @@ func runRebCase(c rebCase) (closed int, sig, msg string) {
 			eps["x"] = o.Conns
 		}
 		cs.AddNode(&cluster.Node{ID: fmt.Sprintf("n%d", i), Status: cluster.NodeStatus(o.Status), ProxyAddr: "p", AdminAddr: "a", Endpoints: eps})
+	}
+	if c.ThresholdNaN {
+		c.Threshold = math.NaN()
+	}
+	if c.ShedRateNaN {
+		c.ShedRate = math.NaN()
 	}
 	conf := config.UpstreamConfig{Rebalance: config.RebalanceConfig{Threshold: c.Threshold, ShedRate: c.ShedRate, MinConns: c.MinConns}}
 	// a configuration the server refuses to start with cannot shed anything;
@@ -112,6 +122,16 @@ func runRebCase(c rebCase) (closed int, sig, msg string) {
 	avg := activeConns / activeNodes // whole connections
 	if closed > c.Local {
 		return closed, "closed-more-than-open", fmt.Sprintf("closed %d of %d", closed, c.Local)
+	}
+	if c.ThresholdNaN && closed > 0 {
+		// no excess is "at least" an undefined threshold
+		return closed, "shed-with-undefined-threshold", fmt.Sprintf("the threshold is not a number, the server started with it and closed %d connections (local %d, average %d)", closed, c.Local, avg)
+	}
+	if c.ShedRateNaN {
+		if closed > 1 {
+			return closed, "shed-with-undefined-rate", fmt.Sprintf("the shed rate is not a number, the server started with it and closed %d connections in one step (local %d, average %d)", closed, c.Local, avg)
+		}
+		c.ShedRate = 0
 	}
 	rate := new(big.Rat).SetFloat64(c.ShedRate)
 	capR := new(big.Rat).Mul(rate, big.NewRat(int64(avg), 1))
@@ -203,7 +223,7 @@ func init() {
 					evals++
 					if closed > 0 {
 						shed++
-						distinct[fmt.Sprintf("%v/%v/%d/%d/%v->%d", c.Threshold, c.ShedRate, c.MinConns, c.Local, c.Others, closed)] = true
+						distinct[fmt.Sprintf("%v%v/%v%v/%d/%d/%v->%d", c.Threshold, c.ThresholdNaN, c.ShedRate, c.ShedRateNaN, c.MinConns, c.Local, c.Others, closed)] = true
 						if shed%997 == 1 {
 							run.Sample(map[string]any{"case": c, "closed": closed})
 						}
@@ -227,6 +247,17 @@ func init() {
 					for l := 0; l <= maxLocal; l++ {
 						for _, o := range others {
 							jobs <- rebCase{Threshold: th, ShedRate: r, MinConns: m, Local: l, Others: o}
+						}
+						// not-a-number in either place (once per value of the other)
+						if th == thresholds[0] {
+							for _, o := range others {
+								jobs <- rebCase{ThresholdNaN: true, ShedRate: r, MinConns: m, Local: l, Others: o}
+							}
+						}
+						if r == rates[0] {
+							for _, o := range others {
+								jobs <- rebCase{Threshold: th, ShedRateNaN: true, MinConns: m, Local: l, Others: o}
+							}
 						}
 					}
 				}
